@@ -4,7 +4,7 @@ From Coq Require Import List Ascii String ZArith Bool Lia.
 From Coq Require Import QArith.
 Local Close Scope Q_scope.
 From PV Require Import Base.Float Proofs.Decimal Proofs.Shortest.
-From PV Require Import Base.Sx Base.Text Spec.Hier Gen.CifTags Model.PdbLex Model.PdbParse Model.CifLex Model.CifParse Model.CifWrite Proofs.C02col Proofs.C02seq Proofs.C04table.
+From PV Require Import Base.Sx Base.Text Spec.Hier Gen.CifTags Model.PdbLex Model.PdbParse Model.CifLex Model.CifParse Model.CifWrite Proofs.C02col Proofs.C02seq Proofs.C04table Proofs.C04cells.
 Import ListNotations.
 Local Open Scope string_scope.
 
@@ -99,6 +99,29 @@ Proof. exact show_int_bare. Qed.
 Theorem C04_record_name_cells_are_legal : forall h : bool, bare (if h then stext "HETATM" else stext "ATOM").
 Proof. exact record_name_bare. Qed.
 
+(* 6. with that, for every structure whose identifiers (atom id and name, residue name, chain id, alternate location, insertion
+      code) are legal unquoted spellings - the precondition of the property - every cell of the table is one: the numbers
+      print_float and the integer formatter produce, the element symbols, the generated label ids and the record names are
+      proved legal for every value; and the loop is read back as its cells *)
+Theorem C04_cells_of_legal_identifiers_are_legal : forall p, ids_legal p -> Forall row_cells_legal (table p).
+Proof. exact table_cells_legal. Qed.
+Theorem C04_printed_numbers_are_legal : forall num, legal_cell (print_float num).
+Proof. exact print_float_legal. Qed.
+Theorem C04_written_atom_table_is_read_for_legal_identifiers : forall (p : pdb) fuel,
+  let anisou := has_aniso p in
+  let lines := table p in
+  let sizes := match lines with l0 :: _ => fold_left widths lines (repeat 1%nat (List.length l0)) | [] => [] end in
+  ids_legal p -> lines <> [] ->
+  Forall (fun l : list text => List.length l = List.length (written_headers anisou)) lines ->
+  (List.length (written_headers anisou) * S (List.length lines) + 2 < fuel)%nat ->
+  exists tail',
+  parse_data_item fuel (line 6 [if anisou then stext cif_writer_aniso_header else []] ++ flat_map (render_line sizes) lines ++ line 7 [])%list =
+  Some (inl (DLoop (map snd (written_headers anisou)) (map (row_vals bare_val sizes) lines)), tail').
+Proof. exact written_atom_table_is_read_ids. Qed.
+(* a decidable criterion for a legal unquoted spelling (used for the finite tables above) *)
+Theorem C04_legal_spelling_decidable : forall t, legalb t = true -> legal_cell t.
+Proof. exact legalb_legal. Qed.
+
 Print Assumptions C04_writer_tags_are_reader_tags.
 Print Assumptions C04_reader_columns_are_written.
 Print Assumptions C04_reader_items_are_written.
@@ -111,3 +134,7 @@ Print Assumptions C04_written_atom_table_is_read.
 Print Assumptions C04_table_layout_is_a_token_sequence.
 Print Assumptions C04_integer_cells_are_legal.
 Print Assumptions C04_record_name_cells_are_legal.
+Print Assumptions C04_cells_of_legal_identifiers_are_legal.
+Print Assumptions C04_printed_numbers_are_legal.
+Print Assumptions C04_written_atom_table_is_read_for_legal_identifiers.
+Print Assumptions C04_legal_spelling_decidable.
